@@ -20,6 +20,7 @@ RSA_FAMILY = ['ssh-rsa', 'rsa-sha2-256', 'rsa-sha2-512']
 RSA_CERT = 'ssh-rsa-cert-v01@openssh.com'
 ED_CERT = 'ssh-ed25519-cert-v01@openssh.com'
 GEX = 'diffie-hellman-group-exchange-sha256'
+GEX1 = 'diffie-hellman-group-exchange-sha1'
 
 
 def peer_spec(case, lists=None, sizes=None):
@@ -36,7 +37,9 @@ def peer_spec(case, lists=None, sizes=None):
     spec = {'banner': case.get('banner', 'SSH-2.0-OpenSSH_9.6'), 'kex': lists['kex'], 'key': lists['key'], 'enc': lists['enc'], 'mac': lists['mac'], 'enc_c': case.get('enc_c'), 'mac_c': case.get('mac_c'), 'hostkeys': {k: v for k, v in hk.items() if k in lists['key'] or k in RSA_FAMILY}}
     if any(k.startswith('diffie-hellman-group-exchange') for k in lists['kex']):
         spec['moduli'] = [sizes['gex']]
-        spec['gex_style'] = 'roundup'
+        spec['gex_style'] = sizes.get('gex_style', 'roundup')
+        if sizes.get('gex_sha1') is not None:
+            spec['moduli_by_alg'] = {GEX: [sizes['gex']], GEX1: [sizes['gex_sha1']]}      # separate groups per algorithm
     return spec
 
 
@@ -87,7 +90,7 @@ def perturbations(case):
                 yield ('cert-host-size', 'Host key (%s) sizes' % cert, L, dict(S, cert_host=S['cert_host'] + 1024))
     if GEX in L['kex']:
         for d in (+1024, -1024):
-            if S['gex'] + d >= 1024:
+            if S['gex'] + d >= (2048 if S.get('gex_style') == 'openssh' else 1024):      # an OpenSSH-style server never hands out less than 2048
                 yield ('gex-size%+d' % d, 'Group exchange (%s) modulus sizes' % GEX, L, dict(S, gex=S['gex'] + d))
 
 
@@ -188,8 +191,11 @@ def strat_peer():
             kex = [k for k in kex if k not in PROBE_KEX and not k.startswith('diffie-hellman-group') and not k.startswith('ecdh-sha2-nistp') and not k.startswith('curve25519')] or ['sntrup761x25519-sha512@openssh.com']
         if with_gex and GEX not in kex:
             kex.append(GEX)
+        both = with_gex and (rsa + cert_host) % 2048 == 0
+        if both and GEX1 not in kex:
+            kex.append(GEX1)
         case = {'kind': 'roundtrip', 'role': role, 'probeable': probeable or GEX in kex, 'lists': {'kex': kex, 'key': key, 'enc': list(dict.fromkeys(enc)), 'mac': list(dict.fromkeys(mac))},
-                'sizes': {'rsa': rsa, 'ca': ca, 'ca_type': ca_type, 'cert_host': cert_host, 'gex': gex}}
+                'sizes': {'rsa': rsa, 'ca': ca, 'ca_type': ca_type, 'cert_host': cert_host, 'gex': gex, 'gex_style': 'openssh' if (ca + gex) % 2048 == 0 else 'roundup', 'gex_sha1': ([3072, 4096, 2048][(rsa // 1024) % 3] if both else None)}}
         if (rsa + ca + gex) % 3072 == 0:
             # the other direction advertises something else (peers may list different algorithms per direction)
             case['enc_c'] = case['lists']['enc'][::-1] + ['aes128-ctr']
